@@ -160,7 +160,10 @@ def check(rep, tier, seed):
     mtypes = {"i8": (["(slice i8)", "(vec i8)", "(ll i8)", "(arr 2 i8)", "(arr 17 i8)"], G.P("i8")),
               "bool": (["(slice bool)", "(vec bool)", "(arr 0 bool)", "(arr 1 bool)", "(arr 3 bool)"], G.P("bool")),
               "u8": (["(slice u8)", "(vec u8)", "(ll u8)", "(arr 0 u8)", "(arr 1 u8)", "(arr 33 u8)"], G.P("u8")),
-              "u16": (["(slice u16)", "(vec u16)", "(arr 3 u16)"], G.P("u16"))}
+              "u16": (["(slice u16)", "(vec u16)", "(arr 3 u16)"], G.P("u16")),
+              "i64": (["(slice i64)", "(vec i64)", "(ll i64)", "(arr 3 i64)"], G.P("i64")),
+              # an element type of size zero whose encoding is NOT empty ([u8; 0] is written as the length 0)
+              "zst": (["(slice (arr 0 u8))", "(vec (arr 0 u8))", "(ll (arr 0 u8))", "(arr 3 (arr 0 u8))"], ("seq", "arr", 0, G.P("u8")))}
     arrlen = lambda t: int(t.split(" ")[1]) if t.startswith("(arr ") else None
     for ename, (tys, e) in mtypes.items():
         for src in tys:
@@ -199,7 +202,33 @@ def check(rep, tier, seed):
             continue
         if not ok:
             bad.append((f"{m['src']} written, read as {m['dst']}: {l[:120]}", a, "a concrete container's encoding is not read back as the same elements by another container"))
-    rep.coverage["concrete_cross_container_cases"] = len(dl)
+    # the unknown-length form (marker -1, then 01 item ... 00) into concrete arrays and vectors: exactly N items or an error
+    def item_bytes(ename, x):
+        if ename == "zst":
+            return b"\x00"
+        v = int(x[1:])
+        return {"i8": lambda: bytes([v & 0xff]), "bool": lambda: bytes([v]), "u8": lambda: bytes([v]),
+                "u16": lambda: v.to_bytes(2, "big"), "i64": lambda: (v & (2 ** 64 - 1)).to_bytes(8, "big")}[ename]()
+    ul, um = [], []
+    for ename, (tys, e) in mtypes.items():
+        for dst in tys:
+            if dst.startswith("(slice") or (ename == "u8" and not dst.startswith("(ll")):
+                continue                      # byte containers have no unknown-length form
+            for n in sorted({0, 1, 2, 3, 4, 16, 17, 18, (arrlen(dst) or 0), (arrlen(dst) or 0) + 1, max(0, (arrlen(dst) or 1) - 1)}):
+                items = [G.gen_value(rng, e, None, 0.4) for _ in range(n)]
+                body = b"\x01" + b"".join(b"\x01" + item_bytes(ename, x) for x in items) + b"\x00"
+                ul.append(f"mdec {dst} {body.hex()}0e")
+                um.append((dst, items))
+    udec = C.run_sharded(harness, "static", ul, wd, "mono.udec", shards=8)
+    for (dst, items), l, a in zip(um, ul, udec):
+        n = arrlen(dst)
+        if n is not None and n != len(items):
+            ok = a.startswith("err ")
+        else:
+            ok = a == "ok (0" + "".join(" " + x for x in items) + ") 1"
+        if not ok:
+            bad.append((l, a, "the unknown-length form read into a concrete container: not exactly its items (or an error when the array length differs)"))
+    rep.coverage["concrete_cross_container_cases"] = len(dl) + len(ul)
     C.proof_coverage(rep, ob, "C12")
     alll = [C.codec_line(c) for c in cases + dcases + icases]
     rep.coverage.update({
